@@ -54,6 +54,8 @@ type Engine struct {
 	tier        string
 	funcsDone   []string
 	pkgContract map[string]*FuncContract // package name -> "//@ package" section
+	recordedLocals map[string][]localDecl
+	renames        map[*ssa.Function]map[string][]string
 }
 
 func newEngine(repo, specDir string) (*Engine, error) {
@@ -133,6 +135,7 @@ func newEngine(repo, specDir string) (*Engine, error) {
 			}
 		}
 	}
+	eng.loadRecordedLocals(specDir)
 	eng.contracts = &ContractSet{Funcs: map[string]*FuncContract{}}
 	eng.pkgContract = map[string]*FuncContract{}
 	for _, p := range pkgs {
